@@ -52,3 +52,22 @@ func Stamp() string { return time.Now().String() + os.Getenv("HOME") }
 func Drop() {
 	_ = os.Remove("x") // dropped error + file mutation outside the owner
 }
+
+type node struct{ scope int }
+
+// deref of a pointer read from a map without a nil/ok test (must be reported by R12.1's deref-lookup)
+func LookupDeref(m map[string]*node, k string) int {
+	n := m[k]
+	return n.scope
+}
+
+// guarded forms (must NOT be reported)
+func LookupDerefGuarded(m map[string]*node, k string) int {
+	if n, ok := m[k]; ok {
+		return n.scope
+	}
+	if n := m[k]; n != nil {
+		return n.scope
+	}
+	return 0
+}
